@@ -1088,7 +1088,7 @@ func (x *Exec) dispatch(st *Step, ev Ev) {
 	case "Distinct":
 		qf := x.frame(st.Recv)
 		ev["a"] = Ev{"cols": bsOrEmpty(st.Cols), "null": b2i(st.Null), "rid": bsOr(st.Rid)}
-		x.result(ev, qf.Distinct(groupby.Columns(strList(st.Cols)...), groupby.Null(st.Null)))
+		x.result(ev, qf.Distinct(x.groupOpts(st)...))
 	case "Select":
 		qf := x.frame(st.Recv)
 		ev["a"] = Ev{"cols": bsOrEmpty(st.Cols)}
@@ -1175,7 +1175,7 @@ func (x *Exec) dispatch(st *Step, ev Ev) {
 		x.result(ev, qf.Eval(st.Dst.String(), ex, ff...))
 	case "GroupBy":
 		qf := x.frame(st.Recv)
-		g := qf.GroupBy(groupby.Columns(strList(st.Cols)...), groupby.Null(st.Null))
+		g := qf.GroupBy(x.groupOpts(st)...)
 		x.groupers = append(x.groupers, g)
 		x.gbirth = append(x.gbirth, grouperDigest(g))
 		ev["a"] = Ev{"cols": bsOrEmpty(st.Cols), "null": b2i(st.Null), "rid": bsOr(st.Rid)}
@@ -1415,4 +1415,15 @@ func (x *Exec) sharedEnumMap(enums []EnumDecl) map[string][]string {
 	}
 	x.enumMaps[string(b)] = m
 	return m
+}
+
+// groupOpts: the configuration options of Distinct / GroupBy are a set - the order in which they are handed
+// in must not matter. The order alternates with the number of values the scenario has produced so far (a
+// function of the scenario alone, so that re-executions agree).
+func (x *Exec) groupOpts(st *Step) []groupby.ConfigFunc {
+	opts := []groupby.ConfigFunc{groupby.Columns(strList(st.Cols)...), groupby.Null(st.Null)}
+	if (len(x.frames)+len(x.groupers))%2 == 1 {
+		opts[0], opts[1] = opts[1], opts[0]
+	}
+	return opts
 }
